@@ -82,6 +82,10 @@ fn run<C: Cs>(ctx: &Ctx, idx: u64, nmax: usize, mixes: usize) {
                 }
             }
             let (e, s, v) = sig_parts::<C>(&sig);
+            // s: a random exponent of exactly ls bits (both signing paths)
+            if s.significant_bits() != C::ls {
+                ctx.violation("C13:s-wrong-bit-length", json!({"case":case,"bits":s.significant_bits(),"ls":C::ls,"n":n}));
+            }
             // e: exactly le bits, coprime to phi(N) (primality is decided offline by the Python checker)
             if e.significant_bits() != C::le {
                 ctx.violation("C13:e-wrong-bit-length", json!({"case":case,"bits":e.significant_bits(),"le":C::le}));
@@ -225,14 +229,20 @@ fn run<C: Cs>(ctx: &Ctx, idx: u64, nmax: usize, mixes: usize) {
                     ctx.violation("C13:accepted/searched-forgery-with-trivial-v", json!({"case":case,"hits":accepted.iter().take(5).collect::<Vec<_>>(),"attempts":tries}));
                 }
             }
-            // other bases / other key
+            // other bases / other key. If every attribute is 0 the bases do not enter the statement at all
+            // (prod a_i^0 = 1): other bases are then the same statement and are not asserted.
+            let all_zero = msgs.iter().all(|m| m.value == 0);
             let mut b2 = bases.clone();
             b2.0.reverse();
-            if b2.0 != bases.0 {
+            if b2.0 != bases.0 && !all_zero {
                 must_fail::<C>(ctx, "bases-reversed", &case, &sig, &pk, &b2, &msgs, json!({}));
             }
             let b3 = Bases::generate(&pk, n);
-            must_fail::<C>(ctx, "bases-other", &case, &sig, &pk, &b3, &msgs, json!({}));
+            if !all_zero {
+                must_fail::<C>(ctx, "bases-other", &case, &sig, &pk, &b3, &msgs, json!({}));
+            } else {
+                ctx.count("base_edits_skipped(all attributes are 0)", 1);
+            }
             if let Some(o) = &other {
                 must_fail::<C>(ctx, "key-other", &case, &sig, o.pk(), &bases, &msgs, json!({}));
                 must_fail::<C>(ctx, "key-and-bases-other", &case, &sig, o.pk(), &o.bases_n(n), &msgs, json!({}));
@@ -293,7 +303,7 @@ pub fn scenarios(ctx: &Ctx) -> Vec<Scenario> {
         v.push(scenario("CL3072", |c| run::<CL3072Sha256>(c, 300, 2, 1)));
         v.push(scenario("CL2048", |c| run::<CL2048Sha256>(c, 200, 3, 2)));
     }
-    let count = ctx.t(800usize, 8000usize);
+    let count = ctx.t(3000usize, 12000usize);
     v.push(scenario("CL1024/volume", move |c| volume::<CL1024Sha256>(c, 900, count)));
     let mixes = ctx.t(3usize, 8usize);
     for i in 0..ctx.t(2u64, 10u64) {
